@@ -11,7 +11,7 @@
 (*                "arrive"        one message arrives                      *)
 (*                "close"         the device closes itself (e.g. EOF)      *)
 (*                "arrive_close"  a message arrives, then the device closes*)
-(*                "arrive2", "arrive2_close"  the same with two messages   *)
+(*                "arrive3", "arrive3_close"  the same with three messages *)
 (*                                taken in by one _receive() call          *)
 (* Kinds: "io" (BaseIOPort device double), "in" (BaseInput double),        *)
 (*        "out" (BaseOutput double), "outs" (an output whose class         *)
@@ -29,8 +29,8 @@ vars == <<closed, q, script, log, nextid, hist, script0>>
 
 R(k, v) == [k |-> k, v |-> v]
 
-ScriptItems == IF Kind \in {"io", "in"} THEN {"nothing", "arrive", "close", "arrive_close", "arrive2", "arrive2_close"}
-               ELSE IF Kind = "ioport" THEN {"nothing", "arrive", "arrive2"}
+ScriptItems == IF Kind \in {"io", "in"} THEN {"nothing", "arrive", "close", "arrive_close", "arrive3", "arrive3_close"}
+               ELSE IF Kind = "ioport" THEN {"nothing", "arrive", "arrive3"}
                ELSE {}
 HasInput  == Kind \notin {"out", "outs"}
 HasOutput == Kind # "in"
@@ -56,13 +56,13 @@ Dev(s) ==
   ELSE LET it == Head(s.script)
            s1 == [s EXCEPT !.script = Tail(@)]
            arr == [s1 EXCEPT !.q = Append(@, s1.nextid), !.nextid = @ + 1]
-           arr2 == [arr EXCEPT !.q = Append(@, arr.nextid), !.nextid = @ + 1]
+           arr2 == [arr EXCEPT !.q = Append(Append(@, arr.nextid), arr.nextid + 1), !.nextid = @ + 2]
        IN CASE it = "nothing" -> s1
             [] it = "arrive" -> arr
             [] it = "close" -> DoClose(s1)
             [] it = "arrive_close" -> DoClose(arr)
-            [] it = "arrive2" -> arr2
-            [] it = "arrive2_close" -> DoClose(arr2)
+            [] it = "arrive3" -> arr2
+            [] it = "arrive3_close" -> DoClose(arr2)
 
 Pop(s) == [s EXCEPT !.q = Tail(@)]
 Out(s, r, sl, pl) == [s |-> s, r |-> r, sleeps |-> sl, polls |-> pl]
@@ -93,7 +93,21 @@ IterLoop(s, got, sl, pl) ==
   IF o.r.k = "msg" THEN IterLoop(o.s, Append(got, o.r.v[1]), sl + o.sleeps, pl + o.polls)
   ELSE Out(o.s, R("list", got), sl + o.sleeps, pl + o.polls)      \* ends without exception
 \* iteration ends only if the port is closed or the script closes it
-Closes(sc) == \E i \in DOMAIN sc : sc[i] \in {"close", "arrive_close", "arrive2_close"}
+Closes(sc) == \E i \in DOMAIN sc : sc[i] \in {"close", "arrive_close", "arrive3_close"}
+
+\* `for msg in port: ... break' - the consumer leaves the loop after n messages; whatever the
+\* port has taken in beyond those stays receivable
+RECURSIVE TakeLoop(_, _, _, _, _)
+TakeLoop(s, got, n, sl, pl) ==
+  IF Len(got) = n THEN Out(s, R("list", got), sl, pl)
+  ELSE LET o == Recv(s, TRUE) IN
+       IF o.r.k = "msg" THEN TakeLoop(o.s, Append(got, o.r.v[1]), n, sl + o.sleeps, pl + o.polls)
+       ELSE Out(o.s, R("list", got), sl + o.sleeps, pl + o.polls)
+RECURSIVE Arrivals(_)
+Arrivals(sc) == IF sc = <<>> THEN 0
+                ELSE (CASE Head(sc) \in {"arrive", "arrive_close"} -> 1
+                        [] Head(sc) \in {"arrive3", "arrive3_close"} -> 3
+                        [] OTHER -> 0) + Arrivals(Tail(sc))
 
 \* iter_pending (and EchoPort's __iter__): polls until None
 RECURSIVE PendLoop(_, _, _)
@@ -138,6 +152,9 @@ Iterate == /\ HasInput
            /\ IF Kind = "echo" THEN Apply("iterate", PendLoop(Cur, <<>>, 0))
               ELSE (closed \/ Closes(script)) /\ Apply("iterate", IterLoop(Cur, <<>>, 0, 0))
 IterPending == HasInput /\ Apply("iter_pending", PendLoop(Cur, <<>>, 0))
+IterTake == /\ HasInput /\ Kind # "echo"
+            /\ (closed \/ Closes(script) \/ Len(q) + Arrivals(script) >= 2)      \* cannot wait for ever
+            /\ Apply("iter_take", TakeLoop(Cur, <<>>, 2, 0, 0))
 \* reset(): "all notes off" and "reset all controllers" on all 16 channels;
 \* panic(): "all sounds off" on all 16 channels; both do nothing on a closed port
 Reset   == /\ HasOutput /\ Kind # "echo"
@@ -150,7 +167,7 @@ Close   == Apply("close", Out(DoClose(Cur), R("ok", <<>>), 0, 0))
 Exit    == Apply("exit", Out(DoClose(Cur), R("ok", <<>>), 0, 0))     \* with port: ... __exit__
 
 Next == /\ Len(hist) < MaxCalls
-        /\ (Send \/ SendFail \/ Receive \/ Poll \/ Iterate \/ IterPending \/ Close \/ Exit \/ Reset \/ Panic)
+        /\ (Send \/ SendFail \/ Receive \/ Poll \/ Iterate \/ IterPending \/ IterTake \/ Close \/ Exit \/ Reset \/ Panic)
 Spec == Init /\ [][Next]_vars
 
 \* ---- properties (C11) ----
@@ -174,7 +191,7 @@ DrainBeforeStop ==
   \A i \in DOMAIN hist :
      (hist[i].op \in {"receive", "poll"} /\ hist[i].qlen_before > 0) => hist[i].r.k = "msg"
 IterEndsCleanly ==
-  \A i \in DOMAIN hist : hist[i].op \in {"iterate", "iter_pending"} => hist[i].r.k = "list"
+  \A i \in DOMAIN hist : hist[i].op \in {"iterate", "iter_pending", "iter_take"} => hist[i].r.k = "list"
 NonBlockingNeverWaits ==
   \A i \in DOMAIN hist : hist[i].op \in {"poll", "iter_pending", "send", "close", "exit", "reset", "panic"}
      => hist[i].sleeps = 0
